@@ -104,6 +104,9 @@ func driveDP(p *Plan, shard int, w *Writer, t *codec.Table) {
 		}
 		// Equals(a, b) on fresh documents, for the empty-iff-equal clause
 		w.Emit(shard, Rec{"sess": id, "op": "EqualsAB", "res": v.Equals(a, b, o, yaml)})
+		// the statement once more on one set of live values: Patch on the very a the diff was computed from
+		sr, se := v.DiffPatchSame(a, b, o, yaml)
+		w.Emit(shard, Rec{"sess": id, "op": "Same", "res": sr, "eq": se})
 		w.Emit(shard, Rec{"sess": id, "op": "End"})
 	})
 }
